@@ -38,8 +38,14 @@ def _worker(args):
         if bool(moved) and len(res["snaps"]) > 2 and case["p_fail"] > 0 and case.get("retention"):
             lname = {d["hermesType"]: l for l, d in case["cdmB"].items()}
             removal_at_move = removal_at_move or any(res["snaps"][-2]["localdata"].get("trashbin_" + lname.get(t, "?")) for t in moved)
+        # the client mapping of a type gains or loses an attribute while the error queue of the previous life
+        # holds an event of that type (converted to a local event under the OLD mapping)
+        remapped = {e[1] for e in case["edits"] if e[0] in ("map_attr", "unmap_attr")}
+        stale_local = bool(remapped) and any(q["remote"] is not None and q["remote"][1] in remapped
+                                             for sn in res["snaps"][:-1] for q in sn["queue"])
         return (evocase.analyse(case, res), evocase.step_gallina(case, res),
-                (evocase.lifecycle_has_readd(res), pending_unmapped, failed_purge, removal_at_move), None, evocase.remap_gallina(case, res))
+                (evocase.lifecycle_has_readd(res), pending_unmapped, failed_purge, removal_at_move, stale_local), None,
+                evocase.remap_gallina(case, res))
     except Exception:
         return None, None, None, traceback.format_exc(), []
 
@@ -89,7 +95,7 @@ def run(ctx):
                                                     f"cache under the new mapping, or an object got two calls / a failing call (case {i}, edits {cases[i]['edits']})", **rep})
         elif not c_ok:
             corr.append({"what": f"corr_client_remap: remap model != __processDatamodelUpdate on case {i} (edits {cases[i]['edits']})", **rep})
-    for i, (c, (viol, g, (readd, pending_unmapped, failed_purge, removal_at_move), _, _rg)) in enumerate(zip(cases, res)):
+    for i, (c, (viol, g, (readd, pending_unmapped, failed_purge, removal_at_move, stale_local), _, _rg)) in enumerate(zip(cases, res)):
         for e in c["edits"]:
             hist["edits"][e[0]] = hist["edits"].get(e[0], 0) + 1
         hist["cases_with_failures"] += c["p_fail"] > 0
@@ -110,8 +116,10 @@ def run(ctx):
                                                     "queue-not-drained", "client-raises"}
             f29 = removal_at_move and set(kinds) <= {"local-data-differ-from-fresh-deployment", "target-differs-from-fresh-deployment",
                                                        "queue-not-drained", "client-raises"}
+            f34 = stale_local and c["p_fail"] > 0 and set(kinds) <= {"local-data-differ-from-fresh-deployment", "target-differs-from-fresh-deployment"}
             violations.append({"sig": "F29-key-move-with-queued-removal" if f29 else "F28-handler-failure-while-purging-a-removed-type" if f28 else
-                               "F27-type-unmapped-with-pending-queue-entries" if f27 else "F5-readd-while-removal-queued" if f5 else None,
+                               "F27-type-unmapped-with-pending-queue-entries" if f27 else "F5-readd-while-removal-queued" if f5 else
+                               "F34-queued-event-converted-under-the-old-mapping" if f34 else None,
                                "what": "; ".join(WHAT.get(k, k) for k in kinds) + f" (case {i}, edits {c['edits']})", **rep})
         elif not c_ok:
             corr.append({"what": f"corr_schema_step: events sent ahead of the new schema != schema_step on case {i} (edits {c['edits']})", **rep})
